@@ -227,9 +227,15 @@ class CommitGraph:
 
         # Read chunks
         # Offsets in TOC are absolute from start of file
+        f.seek(0, os.SEEK_END)
+        file_size = f.tell()
         for i in range(num_chunks):
             chunk_id, offset = toc_entries[i]
             next_offset = toc_entries[i + 1][1]
+            if not offset <= next_offset <= file_size:
+                raise ValueError(
+                    f"Invalid commit graph chunk offsets: {offset}..{next_offset}"
+                )
             chunk_size = next_offset - offset
 
             f.seek(offset)
